@@ -658,28 +658,49 @@ def _monitor(op, out, st):
                 return None
             # right-hand side on J (the Hessian-vector product is what the problem returned: last inner call)
             Hq = None
+            rhsJ = [(1.0 / gam) * p[j] for j in J]
             if hvf != 0:
                 prod = [e for e in evs if e and e[0] in ('igradpsi', 'ihessL', 'ihesspsi')]
                 if not prod:
                     return 'hessian_vec_factor ≠ 0 but no Hessian-vector product / gradient was evaluated'
                 bump('slbfgs_hv_' + prod[0][0])
-                # the vector the product was taken with must be p on K and 0 on J
+                # the vector the product is taken with must be p on K and 0 on J
+                want = [0.0 if j in J else p[j] for j in range(n)]
+                tt = S.T(prod[0][1:])
+                Hq = None
                 if prod[0][0] in ('ihessL', 'ihesspsi'):
-                    tt = S.T(prod[0][1:]); tt.vec(); tt.tok(); v = tt.vec()
-                    want = [0.0 if j in J else p[j] for j in range(n)]
+                    tt.vec(); tt.tok(); v = tt.vec(); Hv = tt.vec()
                     if bits(v) != bits(want):
                         return f'Hessian-vector product taken with {v}, expected p on K and 0 on J: {want}'
+                    fd_, fa_ = int(kv.get('hvfd', 1)) != 0, int(kv.get('fullaug', 1)) != 0
+                    if prod[0][0] == 'ihesspsi' or not fa_:
+                        Hq = Hv            # otherwise the penalty terms are still added to it
+                else:
+                    # finite differences: ∇ψ evaluated at x + h·q_K, h = ∛ε·(1 + ‖x‖)  (documented step)
+                    xe = tt.vec(); ge = tt.vec()
+                    nx = 0.0
+                    for k_, a in enumerate(x):
+                        nx = a * a if k_ == 0 else nx + a * a
+                    h = math.cbrt(EPS) * (1 + math.sqrt(nx))
+                    wantx = [x[j] + h * want[j] for j in range(n)]
+                    if fin(wantx) and any(abs(a - b) > 4 * math.ulp(max(abs(b), abs(x[j]), 1e-300))
+                                          for j, (a, b) in enumerate(zip(xe, wantx))):
+                        return (f'finite-difference Hessian product: ∇ψ evaluated at {xe}, expected '
+                                f'x + ∛ε(1+‖x‖)·q_K = {wantx}')
+                    Hq = [(ge[j] - g[j]) / h for j in range(n)]
+                    bump('slbfgs_fd_point')
+                rhsJ = None if Hq is None else [(1.0 / gam) * p[j] - hvf * Hq[j] for j in J]
             if not hist:
                 # apply_masked fails on an empty buffer; the failure policy decides
                 bump('slbfgs_failure_policy_%d' % fpol)
                 if ok != (fpol == 1):
                     return f'empty buffer, failure_policy={fpol}, but apply returned {ok}'
-                if hvf == 0:
-                    rhs = [(1.0 / gam) * p[j] for j in J]
-                    exp = [v * gam for v in rhs] if fpol == 1 else rhs
+                if rhsJ is not None and fin(rhsJ):
+                    exp = [v * gam for v in rhsJ] if fpol == 1 else rhsJ
                     if bits([q[j] for j in J]) != bits(exp):
                         return (f'empty buffer, failure_policy={fpol}: q_J = {[q[j] for j in J]}, documented '
-                                f'{"γ·" if fpol == 1 else ""}(p_J/γ) = {exp}')
+                                f'{"γ·" if fpol == 1 else ""}(p_J/γ − hvf·(∇²ψ q_K)_J) = {exp}')
+                    bump('slbfgs_fallback_exact')
                 return None
             if P['ce'] > 0:
                 return 'apply_masked did not throw although CBFGS is enabled'
@@ -702,9 +723,8 @@ def _monitor(op, out, st):
                 return None
             if not ok:
                 return f'StructuredLBFGSDirection::apply failed although {len(sub)} pairs are valid on J={J}'
-            if hvf != 0:
-                return None            # rhs_J involves the product; its J-part is covered by the correspondence
-            rhsJ = [(1.0 / gam) * p[j] for j in J]
+            if rhsJ is None or not fin(rhsJ):
+                return None            # penalty terms added by hand: the J-part is covered by the correspondence
             da = dense_apply(sub, g0, rhsJ, len(J))
             if da is None:
                 return None
@@ -712,7 +732,8 @@ def _monitor(op, out, st):
             bump('slbfgs_partial_dense')
             if i is not None:
                 return (f'StructuredLBFGSDirection::apply: q[{J[i]}] = {q[J[i]]!r} but the dense BFGS operator of the '
-                        f'{len(sub)} pairs valid on J={J}, restricted to J, applied to p_J/γ gives {float(da[0][i])!r}')
+                        f'{len(sub)} pairs valid on J={J}, restricted to J, applied to p_J/γ − hvf·(∇²ψ q_K)_J gives '
+                        f'{float(da[0][i])!r}')
             return None
         if d == 'anderson':
             A = st['aa']
@@ -835,13 +856,54 @@ def extra_stage(rep, broken, exe, tier, *, with_proof=False):
                            extra_targets=[DRIVER_FULL])
         broken.extend(ps['broken'])
     else:
-        r = C.run_gen('gen_dirs.py')
-        if not r.get('ok'):
-            broken.append(f'translator gen_dirs.py: {r.get("error")}')
+        _attached_proof_stage(rep, broken)
+    return _run_stages(rep, broken, thorough)
+
+
+def _attached_proof_stage(rep, broken):
+    """Attached to another check (C09): its own proof stage has set the counters; add ours.  One critical
+    section (regenerate → build → snapshot of the drivers → audit), as `common.proof_stage`."""
+    import contextlib
+    # (the lock of common.py is re-entrant when it has the `_held` table; otherwise nesting would deadlock)
+    outer = C.Lock('lake') if hasattr(C.Lock, '_held') else contextlib.nullcontext()
+    with outer:
+        for gsc in GEN_SCRIPTS:
+            r = C.run_gen(gsc)
+            if not r.get('ok'):
+                broken.append(f'translator {gsc}: {r.get("error")}')
+            rep.cov.setdefault('translator_regions', {})[gsc] = r.get('regions') if r.get('ok') else r.get('error')
         ok, out = C.lake_build(MODULES + [DRIVER, DRIVER_FULL])
+        rep.note(f'[dirs] lake build {" ".join(MODULES + [DRIVER, DRIVER_FULL])}: {"ok" if ok else "FAILED"}')
         if not ok:
             broken.extend('lake build: ' + e for e in C.failing_decls(out))
-        rep.cov.setdefault('translator_regions', {})['gen_dirs.py'] = r.get('regions') if r.get('ok') else r.get('error')
+            for drv in (DRIVER, DRIVER_FULL):
+                C.lake_build([drv])
+        if hasattr(C, 'snapshot_drivers'):
+            C.snapshot_drivers([DRIVER, DRIVER_FULL])
+        files = [os.path.join(C.LEAN, x) for x in EXTRA_SOURCES]
+        n_obl = n_dis = 0
+        for mod in MODULES:
+            lf = os.path.join(C.LEAN, mod.replace('.', '/') + '.lean')
+            files.append(lf)
+            ns, names, n_ex = C.theorem_names(lf)
+            n_obl += len(names) + n_ex
+            if ok:
+                aok, res, raw, bad, missing = C.audit_axioms(mod, names, ns)
+                for k, v in bad.items():
+                    broken.append(f'axiom audit: {k} depends on {v}')
+                for m_ in missing:
+                    broken.append(f'axiom audit: no report for {m_}')
+                if not aok and not bad and not missing:
+                    broken.append('axiom audit: lean failed: ' + raw[-400:])
+                n_dis += len(names) + n_ex - len(bad) - len(missing)
+                rep.cov['axioms_used'] = sorted(set(rep.cov.get('axioms_used', [])) | {a for v in res.values() for a in v})
+        for h in C.forbidden_hits(files):
+            broken.append('forbidden token: ' + h)
+        rep.cov['obligations'] = rep.cov.get('obligations', 0) + n_obl
+        rep.cov['discharged'] = rep.cov.get('discharged', 0) + (n_dis if ok else 0)
+
+
+def _run_stages(rep, broken, thorough):
     found = False
     # ---- op-sequence correspondence + monitors on the real providers
     dexe, log = build_harness()
